@@ -666,6 +666,8 @@ var schedKinds = map[string][]string{
 	"C05": {"join-copies", "rejoin"},
 	"C07": {"copies", "consecutive", "regressed", "rejoin"},
 	"C09": {"copies"},
+	"C06": {"consecutive"},
+	"C17": {"rejoin"},
 }
 
 func init() {
@@ -679,4 +681,9 @@ func init() {
 			suites[n] = hs
 		}
 	}
+	// C17: the gateway side (gw.go) and, for the delay clause, the pipeline handing a join-accept to whichever handler reads the buffer
+	gw17 := suites["C17"]
+	ss17 := schedSuite("schedC17", schedKinds["C17"], 9, 200)
+	suites["schedC17"] = ss17
+	suites["C17"] = func(rng *rand.Rand, tier string, w *Writer) { gw17(rng, tier, w); ss17(rng, tier, w) }
 }
